@@ -201,3 +201,45 @@ pub fn main(args: &[String]) -> i32 {
     println!("utils-replay: scenarios={} mismatches={} benign={}", n, hard.len(), mism.len() - hard.len());
     0
 }
+
+/// `ctrlpoints-replay <scenarios.ndjson> <out.json>`: every strictly ordered time list TLC enumerated (MC_ControlPoints) with
+/// every query time: the three lookups of src/model/control_point must return the point the model names (0 = none).
+#[cfg(not(verif_degraded))]
+pub fn ctrlpoints_main(args: &[String]) -> i32 {
+    use rosu_pp::model::control_point::{DifficultyPoint, EffectPoint, TimingPoint};
+    silence_panics();
+    let scenarios = read_ndjson(&args[0]);
+    let mut mism: Vec<Value> = Vec::new();
+    let mut checks = 0u64;
+    for (i, sc) in scenarios.iter().enumerate() {
+        let ts: Vec<f64> = sc["ts"].as_array().map(|a| a.iter().map(|v| v.as_f64().unwrap_or(f64::NAN)).collect()).unwrap_or_default();
+        let tps: Vec<TimingPoint> = ts.iter().enumerate().map(|(k, t)| TimingPoint { time: *t, beat_len: 100.0 + k as f64 }).collect();
+        let dps: Vec<DifficultyPoint> = ts.iter().enumerate().map(|(k, t)| DifficultyPoint { time: *t, slider_velocity: 1.0 + k as f64, bpm_multiplier: 1.0, generate_ticks: true }).collect();
+        let eps: Vec<EffectPoint> = ts.iter().enumerate().map(|(k, t)| EffectPoint { time: *t, kiai: k % 2 == 0, scroll_speed: 1.0 + k as f64 }).collect();
+        for q in sc["q"].as_array().map(|a| a.as_slice()).unwrap_or(&[]) {
+            let (t, want_t, want_d) = (q[0].as_f64().unwrap_or(f64::NAN), q[1].as_i64().unwrap_or(-1), q[2].as_i64().unwrap_or(-1));
+            let r = guarded(|| {
+                let a = rosu_pp::verif::timing_point_at(&tps, t).map_or(0, |p| (p.beat_len - 99.0) as i64);
+                let b = rosu_pp::verif::difficulty_point_at(&dps, t).map_or(0, |p| p.slider_velocity as i64);
+                let c = rosu_pp::verif::effect_point_at(&eps, t).map_or(0, |p| p.scroll_speed as i64);
+                (a, b, c)
+            });
+            checks += 3;
+            match r {
+                Ok(got) if got == (want_t, want_d, want_d) => {}
+                Ok(got) => mism.push(json!({"what": "active_control_point", "scenario_index": i, "times": ts, "query": t, "expected": format!("timing {want_t} difficulty {want_d} effect {want_d}"), "observed": format!("timing {} difficulty {} effect {}", got.0, got.1, got.2)})),
+                Err(p) => mism.push(json!({"what": "panic", "scenario_index": i, "times": ts, "query": t, "expected": "no panic", "observed": p})),
+            }
+        }
+    }
+    std::fs::write(&args[1], serde_json::to_string_pretty(&json!({"scenarios": scenarios.len(), "checks": checks, "mismatches": mism.len(), "degraded": false, "records": mism.iter().take(12).collect::<Vec<_>>()})).unwrap()).unwrap();
+    println!("ctrlpoints-replay: scenarios={} checks={} mismatches={}", scenarios.len(), checks, mism.len());
+    0
+}
+
+#[cfg(verif_degraded)]
+pub fn ctrlpoints_main(args: &[String]) -> i32 {
+    std::fs::write(&args[1], serde_json::to_string_pretty(&json!({"scenarios": 0, "checks": 0, "mismatches": 0, "degraded": true, "records": []})).unwrap()).unwrap();
+    println!("ctrlpoints-replay: degraded build, skipped");
+    0
+}
